@@ -2,16 +2,30 @@
 
 case generator, real-code runner (recording RNG proxy, 2 s alarm), float front end for the Lean model,
 independent property oracle (incl. pair-wise partition check and seed-purity probe), PropertyCheck subclass.
+
+Besides the plain case (wrapper built on a fresh root dataset) a case may carry a SCENARIO (all optional keys of the case dict,
+all replayable from the dict alone):
+  root    data types of the root dataset: labels as numpy ints / 0-dim tensors, bulk accessor getall_class (list / numpy / tensor)
+  below   the wrapper under test is built on a stack of other wrappers of the package (composition of two features)
+  hist    other instances (same or other wrapper classes, a class-balanced sampler) were constructed before on the same root / on a
+          level of the stack / on another root of the same size that is still alive or already gone / with the very same argument objects
+  kwtype  argument data types other than list / float / int (tuple, numpy, torch)
+  copy    the constructed (and used) wrapper is pickled / deep-copied (alone, below another wrapper, inside a ModeWrapper) and the COPY
+          is judged as well
+Every scenario is judged by the property statement alone: the dataset the wrapper was built on is read item-wise (ids, classes), and
+the wrapper must select from THAT sequence what it promises; a copy must expose what the original exposes.
 """
+import copy as _copy
 import itertools
 import json
 import math
+import pickle
 import random
 import signal
 import time
+import zlib
 from fractions import Fraction
 from pathlib import Path
-from unittest import mock
 
 from .common import CorrResult, Disagreement, Failure, PropertyCheck, CORPUS_DIR
 
@@ -51,17 +65,21 @@ def wrappers():
     return _W
 
 
-def make_ds(cls, nc):
-    """base dataset: sample i has the unique id i (`getitem_x`) and the class cls[i]; getdim_class() == nc"""
+ROOT_KINDS = ("item", "npint", "tensor", "bulk_list", "bulk_np", "bulk_tensor")
+
+
+def _root_classes():
+    """root dataset classes; registered as module attributes so that instances can be pickled"""
     global _DSC
     if _DSC is None:
         from kappadata.datasets.kd_dataset import KDDataset
 
-        class _DS(KDDataset):
-            def __init__(self, classes, n_classes):
+        class _RootDS(KDDataset):
+            def __init__(self, classes, n_classes, kind="item"):
                 super().__init__()
                 self.classes = list(classes)
                 self.n_classes = n_classes
+                self.kind = kind
                 self.ids = range(len(self.classes))
 
             def __len__(self):
@@ -71,13 +89,41 @@ def make_ds(cls, nc):
                 return self.ids[idx]
 
             def getitem_class(self, idx, ctx=None):
-                return self.classes[idx]
+                c = self.classes[idx]
+                if self.kind == "npint":
+                    import numpy as np
+                    return np.int64(c)
+                if self.kind == "tensor":
+                    import torch
+                    return torch.tensor(c)
+                return c
 
             def getshape_class(self):
                 return (self.n_classes,)
 
-        _DSC = _DS
-    return _DSC(cls, nc)
+        class _RootBulkDS(_RootDS):
+            def getall_class(self):
+                if self.kind == "bulk_np":
+                    import numpy as np
+                    return np.array(self.classes, dtype=np.int64)
+                if self.kind == "bulk_tensor":
+                    import torch
+                    return torch.tensor(self.classes, dtype=torch.long)
+                return list(self.classes)
+
+        for c in (_RootDS, _RootBulkDS):
+            c.__module__ = __name__
+            c.__qualname__ = c.__name__
+            globals()[c.__name__] = c
+        _DSC = (_RootDS, _RootBulkDS)
+    return _DSC
+
+
+def make_ds(cls, nc, kind="item"):
+    """base dataset: sample i has the unique id i (`getitem_x`) and the class cls[i]; getdim_class() == nc.
+    kind: how the labels are handed out (python int / numpy int / 0-dim tensor item-wise; bulk_*: additionally all at once)"""
+    plain, bulk = _root_classes()
+    return (bulk if kind.startswith("bulk") else plain)(cls, nc, kind)
 
 
 class _Timeout(BaseException):
@@ -89,17 +135,20 @@ def _on_alarm(signum, frame):
 
 
 class _Alarm:
-    """constructor under an interval timer: non-termination becomes the observation 'timeout'"""
+    """constructor under an interval timer: non-termination becomes the observation 'timeout'
+    (the handler is installed once per process; only the timer is armed / disarmed per use)"""
     budget = ALARM_S
     seen = 0
+    installed = False
 
     def __enter__(self):
-        self.old = signal.signal(signal.SIGALRM, _on_alarm)
+        if not _Alarm.installed:
+            signal.signal(signal.SIGALRM, _on_alarm)
+            _Alarm.installed = True
         signal.setitimer(signal.ITIMER_REAL, _Alarm.budget)
 
     def __exit__(self, et, ev, tb):
         signal.setitimer(signal.ITIMER_REAL, 0)
-        signal.signal(signal.SIGALRM, self.old)
         if et is _Timeout:
             _Alarm.seen += 1
             if _Alarm.seen >= 3:
@@ -174,12 +223,121 @@ def _view_after_root_use(case, W, kw):
     return SubsetWrapper(root, indices=[len(extra) + n - 1 - i for i in range(n)])
 
 
-def construct(case, tape=None, seeds=None):
-    """build the real wrapper for a case (RNG recorded when tape is a list)"""
+# ---- scenarios: data types, stacks, histories, copies ------------------------------------------------
+SCENARIO_KEYS = ("root", "below", "hist", "kwtype", "copy")
+COPY_KINDS = ("pickle", "deepcopy", "pickle_below_subset", "pickle_in_mode_wrapper", "deepcopy_below_wrapper", "pickle_twice",
+              "pickle_below_wrapper", "pickle_fresh", "deepcopy_fresh")
+# *_fresh: the copy is made (and read) BEFORE the constructed wrapper is read for the first time; all others: after it was read
+
+
+class _BelowFailed(Exception):
+    """a layer BELOW the wrapper under test could not be built: the case is not judged"""
+
+
+def typed_kw(w, kw, kwtype):
+    """the constructor arguments in another data type (the values are those of case['kw']): tuples instead of lists; numpy index arrays,
+    numpy floats (only where the code's rounding expression is the same in float64) and numpy int seeds; torch index tensors"""
+    if not kwtype:
+        return dict(kw)
+    out = {}
+    for k, v in kw.items():
+        if kwtype == "tuple":
+            if isinstance(v, list):
+                v = tuple(v)
+        elif kwtype == "np":
+            import numpy as np
+            if k == "indices" and isinstance(v, list):
+                v = np.array(v, dtype=np.int64)
+            elif isinstance(v, float) and w in ("percent_filter", "subset"):
+                v = np.float64(v)
+            elif k == "seed" and isinstance(v, int) and not isinstance(v, bool):
+                v = np.int64(v)
+        elif kwtype == "torch":
+            import torch
+            if k == "indices" and isinstance(v, list):
+                v = torch.tensor(v, dtype=torch.long)
+        out[k] = v
+    return out
+
+
+def _build_layer(layer, ds):
+    """one wrapper of the stack below the wrapper under test (`perm`/`reverse`: explicit index lists derived from the length)"""
+    w = layer["w"]
+    if w == "identity":
+        from kappadata.datasets.kd_wrapper import KDWrapper
+        return KDWrapper(ds)
+    kw = dict(layer.get("kw", {}))
+    if "perm_seed" in layer:
+        idx = list(range(len(ds)))
+        random.Random(layer["perm_seed"]).shuffle(idx)
+        kw["indices"] = idx
+    elif layer.get("reverse"):
+        kw["indices"] = list(range(len(ds)))[::-1]
+    return wrappers()[w](ds, **typed_kw(w, kw, layer.get("kwtype")))
+
+
+def _run_hist(h, ds, W, kw, alive):
+    """another user of the dataset `ds` that came first (it stays alive); whatever it raises is its own business"""
+    try:
+        with _Alarm():
+            if h["w"] == "sampler":
+                from kappadata.samplers.class_balanced_sampler import ClassBalancedSampler
+                obj = ClassBalancedSampler(ds, **h.get("kw", {}))
+            elif h["w"] == "same":
+                obj = W(ds, **(kw if h.get("shared") else dict(h.get("kw", kw))))
+            else:
+                obj = _build_layer(h, ds)
+            if h.get("use"):
+                [obj.getitem_class(i) for i in range(len(obj))]
+            alive.append(obj)
+    except (Exception, _Timeout):
+        pass
+
+
+def _other_root(case):
+    cls = list(case["cls"])
+    return make_ds(cls[1:] + cls[:1], case["nc"], case.get("root", "item"))
+
+
+def construct(case, tape=None, seeds=None, info=None):
+    """build the real wrapper for a case (RNG recorded when tape is a list); info (a dict) receives `base`: the dataset the wrapper
+    under test was built on, and `alive`: the other users of the datasets"""
     import numpy as np
     W = wrappers()[case["w"]]
-    kw = dict(case["kw"])
-    ds = _view_after_root_use(case, W, kw) if case.get("view") else make_ds(case["cls"], case["nc"])
+    kw = typed_kw(case["w"], case["kw"], case.get("kwtype"))
+    alive = []
+    hist, below = case.get("hist", ()), case.get("below", ())
+    for h in hist:
+        if h["at"] in ("other", "gone"):
+            other = _other_root(case)
+            _run_hist(h, other, W, kw, alive)
+            if h["at"] == "gone":
+                alive.clear()
+                del other
+            else:
+                alive.append(other)
+    ds = _view_after_root_use(case, W, kw) if case.get("view") else make_ds(case["cls"], case["nc"], case.get("root", "item"))
+    for k in range(len(below) + 1):
+        for h in hist:
+            if h["at"] == k:
+                _run_hist(h, ds, W, kw, alive)
+        if k < len(below):
+            try:
+                with _Alarm():
+                    ds = _build_layer(below[k], ds)
+            except _Timeout:
+                raise _BelowFailed("timeout")
+            except Exception as e:
+                raise _BelowFailed(_exc_kind(e))
+    if info is not None:
+        info["alive"] = alive
+        if below:
+            # what the wrapper under test is given: read item-wise BEFORE it is built
+            try:
+                m = len(ds)
+                info["base"] = {"ids": [int(ds.getitem_x(i)) for i in range(m)], "classes": [int(ds.getitem_class(i)) for i in range(m)]}
+            except Exception as e:
+                raise _BelowFailed(_exc_kind(e))
     if tape is None:
         with _Alarm():
             return W(ds, **kw)
@@ -187,7 +345,7 @@ def construct(case, tape=None, seeds=None):
     real_shuffle = np.random.shuffle
 
     def rec_default_rng(seed=None, *a, **k):
-        seeds.append(seed)
+        seeds.append(int(seed) if isinstance(seed, np.integer) else seed)
         return RecRng(real_default_rng(seed, *a, **k), tape)
 
     def rec_global_shuffle(x):
@@ -196,9 +354,13 @@ def construct(case, tape=None, seeds=None):
         tape.append(_positions(before, [int(v) for v in x]))
         seeds.append("global")
 
-    with mock.patch("numpy.random.default_rng", rec_default_rng), mock.patch("numpy.random.shuffle", rec_global_shuffle):
+    # (same effect as mock.patch on the two names, without its per-use name resolution)
+    np.random.default_rng, np.random.shuffle = rec_default_rng, rec_global_shuffle
+    try:
         with _Alarm():
             return W(ds, **kw)
+    finally:
+        np.random.default_rng, np.random.shuffle = real_default_rng, real_shuffle
 
 
 def observe(w):
@@ -208,17 +370,94 @@ def observe(w):
             "classes": [int(w.getitem_class(i)) for i in range(n)]}
 
 
-def run_real(case, record=True):
-    tape, seeds = [], []
+def _carrier(w, kind):
+    """the object that holds the wrapper while it is copied (another subset / a plain wrapper / a ModeWrapper on top of it);
+    a carrier that cannot be built on this wrapper is left out (the wrapper is then copied alone)"""
     try:
-        w = construct(case, tape if record else None, seeds)
+        if kind == "pickle_below_subset":
+            from kappadata.datasets.kd_subset import KDSubset
+            return KDSubset(w, list(range(len(w))))
+        if kind == "pickle_in_mode_wrapper":
+            from kappadata.wrappers.mode_wrapper import ModeWrapper
+            return ModeWrapper(w, mode="x class")
+        if kind in ("deepcopy_below_wrapper", "pickle_below_wrapper"):
+            from kappadata.datasets.kd_wrapper import KDWrapper
+            return KDWrapper(w)
+    except Exception:
+        pass
+    return None
+
+
+def make_copy(w, kind):
+    """a copy of the wrapper made by python's standard protocols (what a spawned dataloader worker / torch.save / copy.deepcopy get)"""
+    if kind == "pickle_twice":
+        return pickle.loads(pickle.dumps(pickle.loads(pickle.dumps(w, protocol=2))))
+    if kind not in COPY_KINDS:
+        raise KeyError(kind)
+    car = _carrier(w, kind)
+    dup = _copy.deepcopy if kind.startswith("deepcopy") else (lambda o: pickle.loads(pickle.dumps(o)))
+    if car is None:
+        return dup(w)
+    return dup(car).dataset
+
+
+def _observe_or_kind(fn):
+    try:
+        with _Alarm():
+            return observe(fn())
+    except _Timeout:
+        return {"out": "timeout"}
+    except Exception as e:
+        return {"out": _exc_kind(e)}
+
+
+def run_real(case, record=True):
+    """out/indices/len/ids/classes describe the FINAL object (the copy when the case asks for one; `orig` / `after` then hold what the
+    constructed wrapper exposed before / after it was copied); `base`: what the dataset below exposes (stacks only)"""
+    tape, seeds, info = [], [], {}
+    r = {}
+    cp = case.get("copy")
+    fresh = None
+    try:
+        w = construct(case, tape if record else None, seeds, info)
+        if cp and cp.endswith("_fresh"):
+            fresh = _observe_or_kind(lambda: make_copy(w, cp))
         r = observe(w)
     except _Timeout:
-        return {"out": "timeout", "tape": tape, "seeds": seeds}
+        r = {"out": "timeout"}
+    except _BelowFailed as e:
+        r = {"out": "below:" + str(e)}
     except Exception as e:   # outcome, compared with the model's error kind
-        return {"out": _exc_kind(e), "tape": tape, "seeds": seeds}
+        r = {"out": _exc_kind(e)}
+    if r["out"] == "ok" and cp:
+        orig = r
+        r = fresh if fresh is not None else _observe_or_kind(lambda: make_copy(w, cp))
+        r["orig"] = orig
+        r["after"] = _observe_or_kind(lambda: w)
+    if "base" in info:
+        r["base"] = info["base"]
     r["tape"], r["seeds"] = tape, seeds
     return r
+
+
+def is_scenario(case):
+    return any(case.get(k) for k in SCENARIO_KEYS)
+
+
+def virtual(case, real):
+    """the case as the property statement sees it: the wrapper under test on a dataset with the class sequence that the dataset below
+    it exposes; `ids` become positions in that sequence. None: a layer below could not be built (not judged)"""
+    if real["out"].startswith("below:"):
+        return None
+    base = real.get("base")
+    if base is None:
+        return case, real
+    vcase = {"w": case["w"], "cls": list(base["classes"]), "nc": case["nc"], "kw": case["kw"]}
+    if real["out"] != "ok":
+        return vcase, real
+    m = len(base["classes"])
+    vreal = dict(real, ids=[(i % m if m else i) for i in real["indices"]], xids=real["ids"])
+    return vcase, vreal
 
 
 # ----------------------------------------------------------------------------------------------
@@ -438,7 +677,7 @@ def _purity_probe(case, real):
         st_np, st_t, st_py = np.random.get_state(), torch.get_rng_state(), random.getstate()
         try:
             np.random.seed(s)
-            torch.manual_seed(s)
+            torch.default_generator.manual_seed(s)   # the CPU generator (torch.manual_seed also walks all device back ends: ~1 ms)
             random.seed(s)
             np.random.rand(s % 7)
             ids, out = _ids_of(case)
@@ -650,6 +889,66 @@ def oracle(case, real, with_pairs=True):
     return None
 
 
+def _describe(case):
+    return ", ".join(f"{k}={json.dumps(case[k])}" for k in SCENARIO_KEYS + ("view",) if case.get(k))
+
+
+def _sfail(case, key, what, expected, actual):
+    return Failure(key, f"{what} [{case['w']} kw={case['kw']} on root cls={case['cls']} nc={case['nc']}; scenario: {_describe(case)}]",
+                   case, expected, actual)
+
+
+_OBS = ("out", "indices", "len", "ids", "classes")
+SEEDED = ("shuffle", "intra_class_shuffle", "fewshot")
+
+
+def judge(case, real, with_pairs=True):
+    """property C03 on a case that may carry a scenario (see module doc): the plain oracle on the case as the property statement sees
+    it (`virtual`), plus: a copy exposes what the original exposes (the selection is fixed at construction), the items read through
+    the wrapper are the items of the dataset below at the selected positions, and a seeded selection is the one that the same
+    arguments + seed give on a fresh dataset with the same class sequence (function of arguments and seed only)"""
+    if not is_scenario(case):
+        return oracle(case, real, with_pairs)
+    v = virtual(case, real)
+    if v is None:
+        return None
+    vcase, vreal = v
+    if not in_domain(vcase):
+        return None
+    w = case["w"]
+    stacked = "base" in real
+    orig = real.get("orig")
+    if orig is not None:
+        o = {k: orig.get(k) for k in _OBS}
+        c = {k: real.get(k) for k in _OBS}
+        a = {k: real["after"].get(k) for k in _OBS}
+        if c != o:
+            return _sfail(case, f"{w}:copy-changes-selection",
+                          f"a copy of the constructed wrapper ({case['copy']}) does not expose what the wrapper exposes", o, c)
+        if a != o:
+            return _sfail(case, f"{w}:copy-changes-selection",
+                          f"the wrapper exposes something else after it was copied ({case['copy']})", o, a)
+    if stacked and vreal["out"] == "ok":
+        base = real["base"]
+        m = len(base["ids"])
+        pos = vreal["ids"]
+        exp = [base["ids"][q] if 0 <= q < m else None for q in pos]
+        if exp != vreal["xids"]:
+            return _sfail(case, f"{w}:indices-vs-items", "items read through the wrapper are not the items of the dataset below it at "
+                          "the positions of its index list", exp, vreal["xids"])
+    f = oracle(vcase, vreal, with_pairs and not stacked)
+    if f is not None:
+        return _sfail(case, f.key, f.what, f.expected, f.actual)
+    if with_pairs and w in SEEDED and case["kw"].get("seed", 0 if w == "fewshot" else None) is not None:
+        ref = run_real({"w": w, "cls": vcase["cls"], "nc": case["nc"], "kw": case["kw"]}, record=False)
+        got = vreal["ids"]
+        if ref["out"] != "ok" or ref["ids"] != got:
+            return _sfail(case, f"{w}:depends-on-history",
+                          "the selection differs from the one the same arguments and seed give on a fresh dataset with the same class "
+                          f"sequence {vcase['cls']}", ref.get("ids", ref["out"]), got)
+    return None
+
+
 # ----------------------------------------------------------------------------------------------
 # case generation
 # ----------------------------------------------------------------------------------------------
@@ -667,11 +966,49 @@ def nc_options(cls):
     return sorted({max(m, 1), m + 1, m + 2})
 
 
+FLAT_HISTS = (
+    {"at": 0, "w": "sort_by_class"},
+    {"at": 0, "w": "oversampling", "kw": {"mode": "multiply"}},
+    {"at": 0, "w": "sampler"},
+    {"at": 0, "w": "same"},
+    {"at": "other", "w": "same", "shared": True},
+    {"at": "gone", "w": "same"},
+    {"at": "other", "w": "sort_by_class"},
+    {"at": 0, "w": "classwise_subset", "kw": {"end_percent": 0.5}},
+    {"at": 0, "w": "shuffle", "kw": {"seed": 1}, "use": True},
+    {"at": "gone", "w": "oversampling", "kw": {"mode": "exact"}},
+)
+
+
+def kwtype_applies(w, kw, kwtype):
+    if kwtype == "tuple":
+        return any(isinstance(v, list) for v in kw.values())
+    if kwtype == "np":
+        return (isinstance(kw.get("indices"), list) or isinstance(kw.get("seed"), int)
+                or (w in ("percent_filter", "subset") and any(isinstance(v, float) for v in kw.values())))
+    if kwtype == "torch":
+        return isinstance(kw.get("indices"), list)
+    return False
+
+
 def case(w, cls, nc, **kw):
     c = {"w": w, "cls": list(cls), "nc": nc, "kw": kw}
     # every fifth case (by content) runs with a history: see _view_after_root_use
     if (len(c["cls"]) * 7 + sum(c["cls"]) * 3 + len(w) + len(kw)) % 5 == 0 and len(c["cls"]) > 0:
         c["view"] = True
+    # shares of the cases (by content) run in a scenario: judged on a copy / other label data types / after other users of the root /
+    # with other argument data types
+    h = zlib.crc32(json.dumps([w, c["cls"], nc, kw], sort_keys=True, default=str).encode())
+    if h % 4 == 0:
+        c["copy"] = COPY_KINDS[(h // 4) % len(COPY_KINDS)]
+    if h % 7 == 1 and not c.get("view"):
+        c["root"] = ROOT_KINDS[1 + (h // 7) % (len(ROOT_KINDS) - 1)]
+    if h % 5 == 2 and not c.get("view"):
+        c["hist"] = [dict(FLAT_HISTS[(h // 5) % len(FLAT_HISTS)])]
+    if h % 11 == 3:
+        kt = ("tuple", "np", "torch")[(h // 11) % 3]
+        if kwtype_applies(w, kw, kt):
+            c["kwtype"] = kt
     return c
 
 
@@ -872,6 +1209,133 @@ def random_case(rng):
     return case("fewshot", cls, nc, num_shots=rng.randint(0, 5), seed=rng.randrange(100))
 
 
+def lower_layer(rng, k=None):
+    """one wrapper to put below the wrapper under test (valid on every dataset with labels in range)"""
+    if k is None:
+        k = rng.randrange(N_LOWERS)
+    s = rng.randrange(50)
+    return [
+        {"w": "identity"},
+        {"w": "shuffle", "kw": {"seed": s}},
+        {"w": "shuffle", "kw": {"seed": s}},
+        {"w": "sort_by_class"},
+        {"w": "sort_by_class"},
+        {"w": "intra_class_shuffle", "kw": {"seed": s}},
+        {"w": "subset", "perm_seed": s},
+        {"w": "subset", "perm_seed": s, "kwtype": rng.choice(["tuple", "np", "torch"])},
+        {"w": "subset", "reverse": True},
+        {"w": "percent_filter", "kw": {"to_percent": 1.0}},
+        {"w": "percent_filter", "kw": {"from_percent": 0.25}},
+        {"w": "subset", "kw": {"start_index": 1}},
+        {"w": "repeat", "kw": {"repetitions": rng.choice([1, 2])}},
+        {"w": "class_filter", "kw": {"invalid_classes": [1]}},
+        {"w": "class_filter", "kw": {"valid_classes": [0, 2, 3]}},
+        {"w": "oversampling", "kw": {"mode": rng.choice(["multiply", "exact"])}},
+        {"w": "fewshot", "kw": {"num_shots": 2, "seed": s}},
+        {"w": "classwise_subset", "kw": {"end_percent": 0.5}},
+        {"w": "classwise_subset", "kw": {"start_percent": 0.0, "end_percent": 1.0}},
+    ][k]
+
+
+N_LOWERS = 19
+
+
+def all_lowers(rng):
+    return [lower_layer(rng, k) for k in range(N_LOWERS)]
+
+
+def hist_pool(rng, depth):
+    """other users that came first: on the root, on a level of the stack, on another root of the same size (alive / gone)"""
+    at = rng.randrange(depth + 1)
+    return [
+        [],
+        [{"at": 0, "w": "sort_by_class"}],
+        [{"at": 0, "w": "oversampling", "kw": {"mode": "multiply"}}],
+        [{"at": 0, "w": "sampler"}],
+        [{"at": 0, "w": "same"}],
+        [{"at": at, "w": "same"}],
+        [{"at": at, "w": "sort_by_class"}],
+        [{"at": at, "w": "intra_class_shuffle", "kw": {"seed": 3}, "use": True}],
+        [{"at": "other", "w": "same", "shared": True}],
+        [{"at": "other", "w": "sort_by_class"}, {"at": "gone", "w": "oversampling", "kw": {"mode": "multiply"}}],
+        [{"at": 0, "w": "classwise_subset", "kw": {"end_percent": 0.5}}, {"at": 0, "w": "fewshot", "kw": {"num_shots": 1, "seed": 0}}],
+        [{"at": 0, "w": "sort_by_class"}, {"at": at, "w": "oversampling", "kw": {"mode": "exact"}}],
+    ]
+
+
+def top_pool(rng):
+    s = rng.randrange(50)
+    return [
+        ("class_filter", {"valid_classes": [0, 2]}), ("class_filter", {"invalid_classes": [1]}),
+        ("percent_filter", {"from_percent": 0.25, "to_percent": 0.8}), ("percent_filter", {"to_percent": 0.5, "ceil_to_index": True}),
+        ("subset", {"indices": [2, 0, -1]}), ("subset", {"start_index": 1}), ("subset", {"end_percent": 0.5}),
+        ("shuffle", {"seed": s}), ("repeat", {"repetitions": 2}), ("repeat", {"min_size": 7}),
+        ("oversampling", {"mode": "multiply"}), ("oversampling", {"mode": "exact"}), ("sort_by_class", {}),
+        ("intra_class_shuffle", {"seed": s}), ("fewshot", {"num_shots": rng.choice([1, 2]), "seed": s}),
+        ("classwise_subset", {"end_percent": 0.5}), ("classwise_subset", {"start_index": 1, "check_enough_samples": False}),
+    ]
+
+
+def rich_layout(rng):
+    """a class list of 4-10 samples over up to 4 classes in which most classes occur more than once"""
+    n = rng.randint(4, 10)
+    k = rng.choice([2, 3, 3, 4])
+    cls = [rng.randrange(k) for _ in range(n)]
+    return cls, max(cls) + 1 + rng.choice([0, 0, 1])
+
+
+def alt_kw(rng, w, kw):
+    """another configuration of the same wrapper class (None: the class has no configuration)"""
+    if "seed" in kw:
+        return dict(kw, seed=kw["seed"] + 1)
+    others = [k for ww, k in top_pool(rng) if ww == w and k != kw]
+    return rng.choice(others) if others else None
+
+
+def _scenario(rng, c, below, hist):
+    for k in ("view",) + SCENARIO_KEYS:
+        c.pop(k, None)
+    if below:
+        c["below"] = below
+    if hist:
+        c["hist"] = hist
+    if rng.random() < 0.5:
+        c["root"] = rng.choice(ROOT_KINDS[1:])
+    if rng.random() < 0.5:
+        c["copy"] = rng.choice(COPY_KINDS)
+    if rng.random() < 0.15:
+        kt = rng.choice(["tuple", "np", "torch"])
+        if kwtype_applies(c["w"], c["kw"], kt):
+            c["kwtype"] = kt
+    return c
+
+
+def stack_cases(rng, n_hists, n_random):
+    """compositions and histories: every (wrapper under test, wrapper below) pair without and with `n_hists` histories, then random
+    stacks of depth 0-3 below a random case"""
+    for w, kw in top_pool(rng):
+        for low in all_lowers(rng):
+            pool = hist_pool(rng, 1)
+            alt = alt_kw(rng, w, kw)
+            if alt is not None:     # an instance of the same class with another configuration is alive on the root / on the level below
+                pool.append([{"at": rng.randrange(2), "w": "same", "kw": alt}])
+            for hist in [pool[0]] + (rng.sample(pool[1:], n_hists) if n_hists < len(pool) - 1 else pool[1:]):
+                cls, nc = rich_layout(rng)
+                c = {"w": w, "cls": cls, "nc": nc, "kw": dict(kw)}
+                yield _scenario(rng, c, [dict(low)], [dict(h) for h in hist])
+    for _ in range(n_random):
+        c = random_case(rng)
+        c["cls"] = c["cls"][:30]
+        depth = rng.choice([0, 1, 1, 1, 2, 2, 3])
+        below = [lower_layer(rng) for _ in range(depth)]
+        pool = hist_pool(rng, depth)
+        alt = alt_kw(rng, c["w"], c["kw"])
+        if alt is not None:
+            pool.append([{"at": rng.randrange(depth + 1), "w": "same", "kw": alt}])
+        hist = rng.choice(pool)
+        yield _scenario(rng, c, below, [dict(h) for h in hist])
+
+
 def signature(c, real):
     kw = c["kw"]
     cls = c["cls"]
@@ -879,7 +1343,8 @@ def signature(c, real):
                          for k, v in kw.items() if k != "seed"))
     present = len(set(cls))
     absent = c["nc"] - present
-    return (c["w"], flags, min(len(cls), 4), min(present, 3), absent > 0, real["out"], min(real.get("len", 0), 6))
+    scen = (c.get("root", "item"), len(c.get("below", ())), bool(c.get("hist")), c.get("kwtype"), c.get("copy"))
+    return (c["w"], flags, min(len(cls), 4), min(present, 3), absent > 0, real["out"], min(real.get("len", 0), 6), scen)
 
 
 class C03(PropertyCheck):
@@ -926,7 +1391,9 @@ class C03(PropertyCheck):
                   "fuel bound; few-shot and class-wise subset counts. Model tied to the code by differential correspondence each run.")
     level_note = ("trusted: Lean kernel + standard axioms; correspondence harness; numpy generator contract (tape is a permutation); float "
                   "roundings enter as integers from the harness' front end; 'function of arguments and seed only' is structural in the model "
-                  "(pure functions of class list, arguments, tape) and probed dynamically on the real code under perturbed global RNG state")
+                  "(pure functions of class list, arguments, tape) and probed dynamically on the real code under perturbed global RNG state, "
+                  "after other users of the same / another root dataset, below stacks of other wrappers (judged on the class sequence the "
+                  "dataset below exposes), for other label / argument data types and on pickled / deep-copied wrappers")
     design_ref = "DESIGN.md 3 (C03)"
 
     # ---- cases ---------------------------------------------------------------------------------
@@ -965,6 +1432,7 @@ class C03(PropertyCheck):
         nex = len(out) - nex0
         for _ in range(1500 if quick else 12000):
             out.append(random_case(rng))
+        out += list(stack_cases(rng, 2 if quick else 99, 1500 if quick else 12000))
         return out, ncorp, nex
 
     def correspond(self):
@@ -975,17 +1443,30 @@ class C03(PropertyCheck):
                     f"index bounds None/0..n+1 + {nex} class-layout cases (sort/oversampling/class filter on every class list of length <= {'5 over 3' if self.tier == 'quick' else '6 over 4'} classes, "
                     f"the argument-taking wrappers on every class list of length <= {'4' if self.tier == 'quick' else '5 (+10% of length 6 over 4 classes)'} "
                     f"over 3 classes; n_classes in {{max+1,max+2,max+3}}{'; arguments sampled per layout' if self.tier == 'quick' else ''}) + seeded random cases up to 100 samples; "
-                    "distinct = (wrapper, argument shape, size class, classes present/absent, outcome, selection size)")
+                    "+ every (wrapper, wrapper below) pair with and without earlier users of the root/stack + random stacks of depth 0-3; shares of all "
+                    "cases judged on a pickled / deep-copied wrapper, with labels as numpy/tensor/bulk accessor, after other users of the root, "
+                    "with tuple/numpy/torch arguments; "
+                    "distinct = (wrapper, argument shape, size class, classes present/absent, outcome, selection size, scenario)")
         res.exhaustive = self.tier == "thorough"
         reals = [run_real(c) for c in cases]
-        answers = self.driver.run([lean_request(c, r) for c, r in zip(cases, reals)])
-        for c, real, ans in zip(cases, reals, answers):
+        # the case as the property statement sees it (stacks: the class sequence the dataset below exposes); None = not built
+        virt = [virtual(c, r) for c, r in zip(cases, reals)]
+        answers = iter(self.driver.run([lean_request(v[0], v[1]) for v in virt if v is not None]))
+        for c, real, v in zip(cases, reals, virt):
             res.cases += 1
             res.nontrivial.add(signature(c, real))
             res.bump(f"{c['w']}")
             res.bump(f"out={real['out']}")
-            m, im = model_answer(c, ans), impl_answer(c, real)
-            dom = in_domain(c)
+            for k in SCENARIO_KEYS:
+                if c.get(k):
+                    res.bump(f"scenario:{k}" + (f"={c[k]}" if isinstance(c[k], str) else ""))
+            if v is None:
+                res.bump("layer-below-not-built (not judged)")
+                continue
+            vcase, vreal = v
+            ans = next(answers)
+            m, im = model_answer(vcase, ans), impl_answer(vcase, vreal)
+            dom = in_domain(vcase)
             res.bump("in-domain" if dom else "out-of-domain")
             if m != im:
                 if dom:
@@ -998,11 +1479,11 @@ class C03(PropertyCheck):
                         res.observations.append({"what": "model and code differ outside the property's domain (not judged)",
                                                  "case": c, "model": m, "impl": im})
             if dom:
-                f = oracle(c, real)
+                f = judge(c, real)
                 if f is not None and len(res.failures) < 200:
                     if sum(1 for g in res.failures if g.key == f.key) < 3:
                         res.failures.append(f)
-            elif real["out"] == "ok" and c["w"] in ("oversampling", "sort_by_class") and -1 in c["cls"] and len(res.observations) < 6:
+            elif real["out"] == "ok" and c["w"] in ("oversampling", "sort_by_class") and -1 in c["cls"] and "base" not in real and len(res.observations) < 6:
                 lost = sorted(set(range(len(c["cls"]))) - set(real["ids"]))
                 if lost:
                     res.observations.append({"what": "unlabeled samples (-1) are dropped (outside the claim: labels in range)", "case": c, "lost": lost})
@@ -1039,7 +1520,7 @@ class C03(PropertyCheck):
 
     # ---- replay / search -------------------------------------------------------------------------
     def replay_input(self, inp):
-        return oracle(inp, run_real(inp))
+        return judge(inp, run_real(inp))
 
     def search(self, budget_s, hints):
         t0 = time.time()
@@ -1047,7 +1528,7 @@ class C03(PropertyCheck):
         seen = set()
 
         def try_case(c):
-            f = oracle(c, run_real(c))
+            f = judge(c, run_real(c))
             if f is not None and f.key not in seen:
                 seen.add(f.key)
                 out.append(f)
@@ -1060,7 +1541,8 @@ class C03(PropertyCheck):
         rng = random.Random(self.seed + 303)
         gens = itertools.chain(odd_cases(rng), percent_cases(rng, [0, 1, 2, 3, 4, 7, 10], PERCENTS),
                                (c for cls in layouts(4, 3) for nc in nc_options(cls) for c in layout_only_cases(cls, nc)),
-                               (c for cls in layouts(4, 3) for nc in nc_options(cls) for c in class_cases(rng, cls, nc, full=True)))
+                               (c for cls in layouts(4, 3) for nc in nc_options(cls) for c in class_cases(rng, cls, nc, full=True)),
+                               stack_cases(rng, 99, 3000))
         for c in gens:
             if out or time.time() - t0 > budget_s:
                 break
